@@ -124,7 +124,7 @@ def main(argv=None):
     ap.add_argument("--replay")
     ap.add_argument("--workers", type=int, default=int(os.environ.get("VERIF_WORKERS", "0")) or None)
     ap.add_argument("--depth", type=int)
-    ap.add_argument("--budget", type=float)
+    ap.add_argument("--budget", type=float, default=float(os.environ.get("VERIF_BUDGET", "0")) or None)
     a = ap.parse_args(argv)
     seed = int(os.environ.get("VERIF_SEED", "0") or 0)
     pid = a.prop.upper()
